@@ -115,7 +115,8 @@ fn any_ipv6_cfg(protocol: Protocol, size: u16, ext: bool) -> Ipv6 {
         src_addr: any_ipv6(),
         dest_addr: any_ipv6(),
         packet_size: PacketSize(size),
-        payload_pattern: PayloadPattern(if option_env!("VERIF_THOROUGH").is_some() { kani::any() } else { 0xA5 }),
+        // symbolic pattern in the thorough tier, for the dispatch-content harnesses only (sizes up to 64)
+        payload_pattern: PayloadPattern(if option_env!("VERIF_THOROUGH").is_some() && size >= 28 && size <= 64 { kani::any() } else { 0xA5 }),
         privilege_mode: PrivilegeMode::Privileged,
         protocol,
         icmp_extension_mode: if ext { IcmpExtensionParseMode::Enabled } else { IcmpExtensionParseMode::Disabled },
